@@ -12,6 +12,7 @@ the returned solution dictionary is compared with
 import io
 import math
 import contextlib
+import os
 import numpy as np
 from harness import common as C
 from harness import doubles
@@ -32,7 +33,16 @@ ASSUMPTIONS = ['np.argsort modelled as a stable insertion sort: exact for distin
                'MultiNest / PolyChord "MAP" is the sampler-reported vector (pass-through only; file layouts written by the '
                'double in the form the wrappers parse; the real samplers\' layouts cannot be checked offline)',
                'one process in the harness (the model theorem on the index-based order restoration covers every gather order; the multi-rank run is C18)',
-               'rounding: 1e-9 relative to the value range of the trace']
+               'rounding: 1e-9 relative to the value range of the trace',
+               'source tie of the whole store_nest_solutions / store_polychord_solutions: file contents are inputs '
+               '(np.loadtxt tables as lists of rows, f.readlines() of post_separate.dat as a list of strings); str.split() = '
+               'the whitespace-separated tokens and float(token) = the number it denotes (parameters splitWs / parseFloat; '
+               'a malformed token, ValueError, is not modelled); mode_array[idx, :] = line with a line of another length '
+               '(numpy: ValueError unless it has one entry) is totalised; the statements about the sampler\'s own statistics '
+               'dictionary (pymultinest.Analyzer, get_poly_stats, the stats.dat fall-back, NEST_stats, global_logE) are left '
+               'out: these values are pass-through inputs of the per-mode records; the chains files the wrapper has read are '
+               'read again by the harness and handed to Posterior.nestChainsSingle / nestChainsModes / polyChains '
+               '(ops c09.nestsingle, c09.nestmodes, c09.polychains), compared entry by entry with the stored solutions']
 
 QS = [0.16, 0.5, 0.84]
 
@@ -41,6 +51,11 @@ QS = [0.16, 0.5, 0.84]
 # lean/Props/C09Src.lean).  numpy's argsort / add.accumulate / interp / argmax are externals.
 _QEXT = {'np.argsort': ('argsort', ['list'], 'natlist'), 'np.add.accumulate': ('accumulate', ['list'], 'list'),
          'np.interp': ('interp', ['list', 'list', 'list'], 'list')}
+# statements of the two store functions about the sampler's own statistics dictionary (and the table read handed to the
+# chains segment as a parameter): not part of the whole-function translation
+_STATS_STMTS = [r'^NEST_analyzer = ', r'^NEST_stats = ', r"^NEST_out\['NEST(_POLY)?_stats'\] = ",
+                r"^NEST_out\['global_logE'\] = ", r"^if len\(NEST_out\['NEST_stats'\]\['modes'\]\) == 0:",
+                r'^data = np\.loadtxt\(']
 _NEST = {'modes_array[nmode]': ('tracedata', 'list2'), 'modes_weights[nmode]': ('weights', 'list'),
          "NEST_stats['modes'][nmode]['maximum a posterior']": ('nest_map', 'list'),
          "NEST_stats['modes'][nmode]['mean']": ('nest_mean', 'list'),
@@ -96,6 +111,68 @@ SRC_SPECS = [
          attrs=dict(_NEST, **{'self.fit_names': ('fit_names', 'objlist:Name')}),
          loops={'enumerate(self.fit_names)': 'store_polychord_solutions'}, result='mydict',
          dict_skip=['type', 'local_logE']),
+    # ---- the FILE-READING PREFIXES (dialect 'seq'): the statements of store_nest_solutions from `modes = []` up to the loop
+    # over the modes, once per calling pattern.  Their value: (modes_array, modes_weights, modes) — per mode the 2-D array of
+    # samples and the weights, and the list whose length is the number of solutions.  File contents are inputs: `data` =
+    # np.loadtxt(<base>.txt) (a 2-D array: weight, -2 logL, parameters), `lines` = the lines of <base>post_separate.dat
+    # (`f.readlines()`); `line.split()` / `float(tok)` are the parameters `splitWs` / `parseFloat`
+    dict(module='taurex/optimizer/multinest.py', cls='MultiNestOptimizer', func='store_nest_solutions',
+         lean='multinest_chains_single', callname='store_nest_solutions/chains-single', dialect='seq', params={},
+         start_at='modes = []', stop_at='for nmode in range(len(modes)):', free_locals={'data': 'rows'},
+         assume={'self.multimodes': False},
+         locals={'modes': 'rows3', 'modes_weights': 'rows', 'chains': 'rows', 'chains_weights': 'list'},
+         result=['modes_array', 'modes_weights', 'modes']),
+    dict(module='taurex/optimizer/multinest.py', cls='MultiNestOptimizer', func='store_nest_solutions',
+         lean='multinest_chains_modes', callname='store_nest_solutions/chains-modes', dialect='seq', params={},
+         start_at='modes = []', stop_at='for nmode in range(len(modes)):', free_locals={'data': 'rows'},
+         assume={'self.multimodes': True},
+         locals={'modes': 'rows3', 'modes_weights': 'rows', 'chains': 'rows', 'chains_weights': 'list',
+                 'modes_array': 'rows3'},
+         with_externals=["open(os.path.join(self.dir_multinest, '{}post_separate.dat'.format(self.multinest_prefix)))"],
+         t_externals={'f.readlines()': ('lines', 'strlist')},
+         result=['modes_array', 'modes_weights', 'modes']),
+    # the same for store_polychord_solutions, from `modes_array = []` up to the loop over the clusters: `data` =
+    # np.loadtxt(<dir>/1-.txt), the cluster count `get_poly_cluster_number(dir)` and the cluster files
+    # np.loadtxt(<dir>/clusters/1-_<k>.txt) (a function of the loop index) are inputs; `do_clustering` is a run-time flag
+    dict(module='taurex/optimizer/polychord.py', cls='PolyChordOptimizer', func='store_polychord_solutions',
+         lean='polychord_chains', callname='store_polychord_solutions/chains', dialect='seq', params={},
+         start_at='modes_array = []', stop_at='for nmode in range(num_clusters):', free_locals={'data': 'rows'},
+         locals={'modes_array': 'rows3', 'modes_weights': 'rows'},
+         attrs={'self.do_clustering': ('do_clustering', 'bool')},
+         ignore_calls=r'^(self\.(debug|info|warning|error|critical)|print)\(',
+         t_externals={'self.get_poly_cluster_number(self.dir_polychord)': ('clusterNumber', 'nat'),
+                      'len(self.fit_names)': ('nFit', 'nat')},    # (the whole function holds fit_names as abstract names)
+         fn_externals={"np.loadtxt(os.path.join(self.dir_polychord, 'clusters/1-_{0}.txt'.format(midx + 1)))":
+                       ('clusterTable', ['midx'], 'rows')},
+         result=['modes_array', 'modes_weights', 'num_clusters']),
+    # ---- the WHOLE store functions (dialect 'objrec'): `NEST_out = {'solutions': {}}`, the chains of every mode (the
+    # statement range above, called as a function: `segment`), the loop over the modes whose one iteration is
+    # `multinest_mode` / `polychord_mode` and which stores its dict under 'solution{}'.format(nmode), `return NEST_out`.
+    # Left out (`ignore_stmts`): the statements that build and patch the sampler's own statistics dictionary
+    # (pymultinest.Analyzer / get_poly_stats, the stats.dat fall-back parser, NEST_out['NEST_stats'], 'global_logE') — these
+    # values are pass-through inputs of the per-mode records (`nest_map`, … as functions of the mode index) —, and
+    # `data = np.loadtxt(…)` (the table is the parameter `data` of the chains segment)
+    dict(module='taurex/optimizer/multinest.py', cls='MultiNestOptimizer', func='store_nest_solutions',
+         lean='multinest_store_single', callname='store_nest_solutions/whole-single', dialect='objrec', params={},
+         attrs=dict(_NEST, **{'self.fit_names': ('fit_names', 'objlist:Name')}), ignore_stmts=_STATS_STMTS,
+         segment=dict(start='modes = []', stop='for nmode in range(len(modes)):',
+                      call='store_nest_solutions/chains-single', args={'data': ('data', 'list2')},
+                      binds=['list3', 'list2', 'list']),
+         loops={'range(len(modes))': 'store_nest_solutions/mode'}, result='NEST_out'),
+    dict(module='taurex/optimizer/multinest.py', cls='MultiNestOptimizer', func='store_nest_solutions',
+         lean='multinest_store_modes', callname='store_nest_solutions/whole-modes', dialect='objrec', params={},
+         attrs=dict(_NEST, **{'self.fit_names': ('fit_names', 'objlist:Name')}), ignore_stmts=_STATS_STMTS,
+         segment=dict(start='modes = []', stop='for nmode in range(len(modes)):',
+                      call='store_nest_solutions/chains-modes', args={'data': ('data', 'list2')},
+                      binds=['list3', 'list2', 'list3']),
+         loops={'range(len(modes))': 'store_nest_solutions/mode'}, result='NEST_out'),
+    dict(module='taurex/optimizer/polychord.py', cls='PolyChordOptimizer', func='store_polychord_solutions',
+         lean='polychord_store', callname='store_polychord_solutions/whole', dialect='objrec', params={},
+         attrs=dict(_NEST, **{'self.fit_names': ('fit_names', 'objlist:Name')}), ignore_stmts=_STATS_STMTS,
+         segment=dict(start='modes_array = []', stop='for nmode in range(num_clusters):',
+                      call='store_polychord_solutions/chains', args={'data': ('data', 'list2')},
+                      binds=['list3', 'list2', 'nat']),
+         loops={'range(num_clusters)': 'store_polychord_solutions/mode'}, result='NEST_out'),
 ]
 
 
@@ -416,6 +493,7 @@ def eval_fit(ctx, spec):
     if keys != ['solution%d' % j for j in range(len(modes))]:
         ctx.violation('solutions-missing:' + sampler, 'one solution per sampler mode expected', case, dict(keys=keys))
         return
+    compare_chain_files(ctx, opt, sampler, sol, names, sm)
     binner2 = obs2.create_binner()
 
     def write(vec):
@@ -591,6 +669,54 @@ def malformed(ctx):
         ctx.malformed_outcome('polychord-cluster-false:ok')
     except Exception as e:
         ctx.malformed_outcome('polychord-cluster-false:%s' % type(e).__name__)
+
+
+def compare_chain_files(ctx, opt, sampler, sol, names, case):
+    """MultiNest / PolyChord: the text files the wrapper has just read back, read here independently and handed to the Lean
+    model of the reading code (Posterior.nestChainsSingle / nestChainsModes / polyChains): every stored solution's tracedata
+    and weights must be what the model makes of the files, solution by solution"""
+    if sampler == 'nestle':
+        return
+    tab = lambda a: C.LL(np.atleast_2d(np.asarray(a, float)).tolist())
+    if sampler == 'multinest':
+        base = os.path.join(opt.dir_multinest, opt.multinest_prefix)
+        if opt.multimodes:
+            with open(base + 'post_separate.dat') as fh:
+                lines = fh.readlines()
+            enc = lambda ln: ('1' if ln == '\n' else '0') + ' ' + C.L([float(x) for x in ln.split()])
+            d = ctx.model().call('c09.nestmodes', C.L(lines, enc))
+            what = 'Posterior.nestChainsModes'
+        else:
+            d = ctx.model().call('c09.nestsingle', tab(np.loadtxt(base + '.txt')))
+            what = 'Posterior.nestChainsSingle'
+        arrays = d.list(lambda: d.list(d.list))
+        weights = d.list(d.list)
+    else:
+        dirp = opt.dir_polychord
+        dc = bool(opt.do_clustering)
+        nc = int(opt.get_poly_cluster_number(dirp)) if dc else 1
+        clusters = []
+        if dc and nc != 1:
+            clusters = [np.atleast_2d(np.loadtxt(os.path.join(dirp, 'clusters/1-_%d.txt' % (k + 1)))).tolist()
+                        for k in range(nc)]
+        d = ctx.model().call('c09.polychains', C.N(len(names)), C.N(1 if dc else 0), C.N(nc),
+                             tab(np.loadtxt(os.path.join(dirp, '1-.txt'))), C.LLL(clusters))
+        arrays = d.list(lambda: d.list(d.list))
+        weights = d.list(d.list)
+        nsol = d.nat()
+        what = 'Posterior.polyChains'
+        ctx.check_eq('number of solutions vs %s' % what, len([k for k in sol if k.startswith('solution')]), nsol, case)
+    keys = sorted((k for k in sol if k.startswith('solution')), key=lambda k: int(k[8:]))
+    ctx.check_eq('number of solutions vs %s (arrays)' % what, len(keys), len(arrays), case)
+    for j, k in enumerate(keys[:len(arrays)]):
+        td = np.asarray(sol[k]['tracedata'], float)
+        ma = np.asarray(arrays[j], float).reshape(td.shape) if np.asarray(arrays[j]).size == td.size else \
+            np.asarray(arrays[j], float)
+        ctx.check_eq('tracedata shape vs %s' % what, list(td.shape), list(ma.shape), dict(case, solution=j))
+        if td.shape == ma.shape:
+            ctx.check_close('tracedata vs %s' % what, td.ravel(), ma.ravel(), dict(case, solution=j), 0.0, 0.0)
+        ctx.check_close('weights vs %s' % what, np.asarray(sol[k]['weights'], float).ravel(), weights[j],
+                        dict(case, solution=j), 0.0, 0.0)
 
 
 SAMPLER_INDEX = {'nestle': 0, 'multinest': 1, 'polychord': 2}
